@@ -9,6 +9,7 @@ use vstd::prelude::*;
 //@include ../../shims/net.rs
 //@include ../../shims/ord.rs
 //@include ../../shims/strs.rs
+//@include ../../shims/tokio_io.rs
 }
 use shim::*;
 pub mod specs {
@@ -22,6 +23,8 @@ type DatagramPacket = (BytesMut, Address);
 broadcast use axiom_v4_len, axiom_v6_len, axiom_string_utf8, axiom_slice_cmp_u8, axiom_cb_ends;
 
 //@include ../parts/addr.rs
+//@include ../parts/plain.rs
 //@include ../parts/http.rs
+//@include ../parts/httphs.rs
 } // verus!
 fn main() {}
